@@ -242,7 +242,10 @@ impl Workload for Renames {
         }
     }
     fn run(&self, seed: u64, idx: u64, st: &mut Stats) -> Vec<Violation> {
-        let Some(c) = gen_wt_case(seed, "c18", idx, &cfg(), st) else { return vec![] };
+        let Some(mut c) = gen_wt_case(seed, "c18", idx, &cfg(), st) else { return vec![] };
+        if idx % 2 == 1 {
+            with_trivia(&mut c, seed, "c18", idx);
+        }
         st.nontrivial(hash64(&c.sources.files));
         st.sample(|| json!({"sources": c.sources.to_json()}));
         run_case(&c, seed, idx, st)
@@ -253,7 +256,10 @@ impl Workload for Renames {
         }
         let seed = case["seed"].as_u64().unwrap_or(1);
         let idx = case["index"].as_u64().unwrap_or(0);
-        let Some(c) = gen_wt_case(seed, "c18", idx, &cfg(), st) else { return vec![] };
+        let Some(mut c) = gen_wt_case(seed, "c18", idx, &cfg(), st) else { return vec![] };
+        if idx % 2 == 1 {
+            with_trivia(&mut c, seed, "c18", idx);
+        }
         run_case(&c, seed, idx, st)
     }
     fn chunk(&self) -> u64 {
